@@ -1,7 +1,7 @@
 """C07 - status line: accepted language and reported version/code/reason (product with the reference grammar)."""
 from .jobs import *
 REQUIRED_WITNESSES = ['C', 'P', 'E:Status', 'E:Version', 'E:NewLine']
-BOUNDS = {'quick': 'every response buffer of 0..=12 bytes; split templates with 1..=7 symbolic bytes after the version / code; all 1000 codes (digits symbolic, one arithmetic query per path); reasons to 20 bytes; multi-space option symbolic throughout',
+BOUNDS = {'quick': 'every response buffer of 0..=12 bytes; split templates with 1..=7 symbolic bytes after the version / code; all 1000 codes (digits symbolic, one arithmetic query per path); reasons to 20 bytes; multi-space option symbolic throughout; long runs (7..33 bytes) of leading empty lines and delimiter spaces with a 2-byte symbolic window, a complete message behind',
           'thorough': 'every response buffer of 0..=15 bytes; split templates to 10 symbolic bytes; reasons to 40 bytes'}
 OUTSIDE = 'longer status lines'
 ASSUMPTIONS = ['reference model /verif/refmodel transcribes the status-line grammar of the property text']
@@ -19,4 +19,5 @@ def jobs(tier, seed):
                              fixed={i: (A8 if i == hot else A7) for i in range(L)}), T(tier, 60, 300),
                              f'"HTTP/1.0 301 " + {L} symbolic reason bytes (7-bit but HTAB/SP/CR/LF; offset {hot}: any value but CR/LF) + CRLF LF', family='reason', mandatory=(L <= 8)))
     J += sliding_families(P, G, tier, step=T(tier, 2, 1), pool=('resp-fold', 'resp-ignore'), max_off=30)
+    J += longrun_families(P, G, tier, ('resp-lead-empty', 'resp-sp1', 'resp-sp2'))
     return J
